@@ -1,0 +1,66 @@
+//! Verification hooks. Only compiled with `--cfg mla_verif` (never set by the
+//! crate's own manifest): the shipped library does not contain this module.
+//!
+//! * size constants come from `MLA_VERIF_*` compile-time environment variables
+//!   (set by the build script of the verification shadow packages);
+//! * an optional, thread-local, seed for the generators that otherwise read
+//!   the OS entropy source (nothing installed => OS entropy, as shipped);
+//! * reach probes: named counters incremented at a few interesting branches.
+use rand::SeedableRng;
+use rand_chacha::ChaChaRng;
+use std::cell::{Cell, RefCell};
+use std::collections::BTreeMap;
+
+/// Decimal parser usable in `const` context
+pub const fn parse_u64(s: &str) -> u64 {
+    let b = s.as_bytes();
+    assert!(!b.is_empty(), "empty MLA_VERIF_* value");
+    let mut i = 0;
+    let mut v: u64 = 0;
+    while i < b.len() {
+        assert!(b[i] >= b'0' && b[i] <= b'9', "MLA_VERIF_* value is not a decimal number");
+        v = v * 10 + (b[i] - b'0') as u64;
+        i += 1;
+    }
+    v
+}
+
+thread_local! {
+    static RNG_SEED: Cell<Option<u64>> = const { Cell::new(None) };
+    static RNG_DRAWS: Cell<u64> = const { Cell::new(0) };
+    static HITS: RefCell<BTreeMap<&'static str, u64>> = const { RefCell::new(BTreeMap::new()) };
+}
+
+/// Install (Some) or remove (None) a seed for the current thread
+pub fn set_rng_seed(seed: Option<u64>) {
+    RNG_SEED.with(|s| s.set(seed));
+    RNG_DRAWS.with(|d| d.set(0));
+}
+
+/// Returns `default` untouched unless a seed is installed on this thread
+pub fn rng_or(default: ChaChaRng) -> ChaChaRng {
+    match RNG_SEED.with(Cell::get) {
+        None => default,
+        Some(seed) => {
+            let n = RNG_DRAWS.with(|d| {
+                let n = d.get();
+                d.set(n + 1);
+                n
+            });
+            let mut s = [0u8; 32];
+            s[..8].copy_from_slice(&seed.to_le_bytes());
+            s[8..16].copy_from_slice(&n.to_le_bytes());
+            ChaChaRng::from_seed(s)
+        }
+    }
+}
+
+/// Reach probe
+pub fn hit(name: &'static str) {
+    HITS.with(|h| *h.borrow_mut().entry(name).or_insert(0) += 1);
+}
+
+/// Take (and reset) the reach probe counters of the current thread
+pub fn take_hits() -> BTreeMap<&'static str, u64> {
+    HITS.with(|h| std::mem::take(&mut *h.borrow_mut()))
+}
